@@ -3,6 +3,7 @@
 package c04
 
 import (
+	"bytes"
 	"fmt"
 	"testing"
 
@@ -128,6 +129,11 @@ func runLog(rec *mon.Recorder, c int, long bool) {
 		}
 	}
 	P := newSM() // incremental prefix replica the snapshots are taken from
+	type keptSnap struct {
+		k          int
+		snap, copy []byte
+	}
+	var keptSnaps []keptSnap
 	pos := 0
 	emptyCuts, cutsDone := 0, 0
 	sortInts(cuts)
@@ -145,6 +151,7 @@ func runLog(rec *mon.Recorder, c int, long bool) {
 		if P.Index().Len() == 0 {
 			emptyCuts++
 		}
+		keptSnaps = append(keptSnaps, keptSnap{k: k, snap: snap, copy: append([]byte(nil), snap...)})
 		variants := []string{"fresh", "used", "twice"}
 		for vi, variant := range variants {
 			if long && vi != cutsDone%3 {
@@ -212,6 +219,46 @@ func runLog(rec *mon.Recorder, c int, long bool) {
 			rec.Count("restores_checked", 1)
 		}
 		cutsDone++
+	}
+	// A snapshot is kept by whoever received it (the log store, a message to a lagging follower) while the replica
+	// goes on and takes later ones: every earlier snapshot of P is restored again now, after all later ones were taken.
+	for i, ks := range keptSnaps {
+		if long && i%4 != 0 {
+			continue
+		}
+		R := newSM()
+		what := ""
+		if !bytes.Equal(ks.snap, ks.copy) {
+			what = " (the bytes handed out at the cut have changed since)"
+		}
+		rerr := func() (err error) {
+			defer func() {
+				if p := recover(); p != nil {
+					err = fmt.Errorf("panic: %v", p)
+				}
+			}()
+			return R.Restore(ks.snap)
+		}()
+		if rerr != nil {
+			rec.Violation("earlier-snapshot-restored-after-later-snapshots:restore-error", fmt.Sprintf("cut %d of %d: %v%s", ks.k, n, rerr, what), replay(rerr.Error()))
+			return
+		}
+		outs, err := applyAll(R, log, ks.k)
+		if err != nil {
+			rec.Violation("earlier-snapshot-restored-after-later-snapshots:apply-failed", fmt.Sprintf("cut %d: %v%s", ks.k, err, what), replay(err.Error()))
+			return
+		}
+		for j := range outs {
+			if d := smx.CompareOutcome(wants[ks.k+j], log[ks.k+j].Change, outs[j].got, outs[j].delivered); d != "" {
+				rec.Violation("earlier-snapshot-restored-after-later-snapshots:outcome-differs", fmt.Sprintf("cut %d entry %d (%s): %s%s", ks.k, ks.k+j, log[ks.k+j].Desc, d, what), replay(d))
+				return
+			}
+		}
+		if d := contentDiff(A, R); d != "" {
+			rec.Violation("earlier-snapshot-restored-after-later-snapshots:contents-differ-from-replay", fmt.Sprintf("cut %d: %s%s", ks.k, d, what), replay(d))
+			return
+		}
+		rec.Count("earlier_snapshots_restored_late", 1)
 	}
 	rec.Count("cuts", int64(cutsDone))
 	rec.Count("cuts_on_empty_index", int64(emptyCuts))
